@@ -315,9 +315,16 @@ func (h *c04Hist) settle(name string, err error, completedBefore int) bool { //n
 				sig = "fired-twice-without-exchange:rollback-between"
 			}
 		}
-		h.ops = append(h.ops, rec)
-		h.violate(sig, fmt.Sprintf("invocations during op %d and op %d with no completed exchange and no not-needed observation in between", f0.Op, f1.Op))
-		h.ops = h.ops[:len(h.ops)-1]
+		if sig == "fired-twice-without-exchange:rollback-between" {
+			// Rollback is not among the calls the property quantifies over, and W3C's set-description algorithm clears
+			// and re-evaluates the negotiation-needed flag whenever the state returns to stable, rollback included:
+			// a second event after a rollback is recorded, not judged.
+			h.run.Count("model_divergence_refired_after_rollback", 1)
+		} else {
+			h.ops = append(h.ops, rec)
+			h.violate(sig, fmt.Sprintf("invocations during op %d and op %d with no completed exchange and no not-needed observation in between", f0.Op, f1.Op))
+			h.ops = h.ops[:len(h.ops)-1]
+		}
 		h.resetAt = len(fires) - 1 // keep judging later pairs independently
 	}
 
